@@ -96,6 +96,15 @@ def replay(spec):
         except Exception as e:      # noqa: a raising lemma body is a failed lemma
             return True, f'lemma body raised {type(e).__name__}: {e}'
         return (not ok), f'lemma value {ok!r}'
+    prior = spec['args'].get('$prior_call')
+    if prior:
+        # a memoising wrapper is modelled as "the body ran earlier on hash-equal
+        # arguments": make that earlier call first
+        pargs = [decode(prior[n]) if n in prior else a for n, a in zip(names, args)]
+        try:
+            call_native(spec, pargs)
+        except Exception:
+            pass
     try:
         result = call_native(spec, args)
     except Exception as e:
